@@ -9,6 +9,7 @@ package main
 
 import (
 	"go/types"
+	"path/filepath"
 	"sort"
 	"strings"
 
@@ -20,6 +21,7 @@ var referenceTrackers = []string{
 	"compiler.(*RenameObject).Process",
 	"compiler.(*PrefixObjectNames).Process",
 	"compiler.(*FilterSchemas).buildAllowList",
+	"compiler.(*Unspec).Process",
 }
 
 // referenceKinds: the payload fields of ast.Type that name another object, e.g. Ref, ConstantReference.
@@ -195,4 +197,147 @@ func (e *Engine) pos(fn *ssa.Function) string {
 	}
 	p := fn.Prog.Fset.Position(fn.Pos())
 	return strings.TrimPrefix(p.String(), e.repo+"/")
+}
+
+// ---- every pass that writes the name of an object keeps the references in step -----------------------
+//
+// nameWriters: the functions of the compiler package that store into the Name field of an ast.Object.
+// Each has to be classified in the lock ("C05-names <function> renames|creates ..."): `creates` - the object
+// is a new one (a copy registered under another name, the original stays); `renames` - an object of the
+// schema changes its name, and then the Process method of the pass has to be a reference tracker (it builds
+// a visitor that handles every reference-carrying kind of ast.Type, with every callback under a C05
+// contract) and has to write Schema.EntryPoint somewhere in the pass's own functions. A name writer that
+// is not classified fails, so a new renaming pass is not silently outside the claim.
+func (e *Engine) nameWriters() map[string]*ssa.Function {
+	out := map[string]*ssa.Function{}
+	for k, fn := range e.fnByKey {
+		if !strings.HasPrefix(k, "compiler.") {
+			continue
+		}
+		for _, b := range fn.Blocks {
+			for _, in := range b.Instrs {
+				st, ok := in.(*ssa.Store)
+				if !ok {
+					continue
+				}
+				fa, ok := st.Addr.(*ssa.FieldAddr)
+				if !ok {
+					continue
+				}
+				pt, ok := fa.X.Type().Underlying().(*types.Pointer)
+				if !ok {
+					continue
+				}
+				nt, ok := pt.Elem().(*types.Named)
+				if !ok || nt.Obj().Name() != "Object" || nt.Obj().Pkg() == nil || nt.Obj().Pkg().Name() != "ast" {
+					continue
+				}
+				if nt.Underlying().(*types.Struct).Field(fa.Field).Name() == "Name" {
+					out[k] = fn
+				}
+			}
+		}
+	}
+	return out
+}
+
+// passFunctions: the methods of the receiver type of key (a pass) and their closures.
+func (e *Engine) passFunctions(key string) []*ssa.Function {
+	i := strings.Index(key, ").")
+	if i < 0 {
+		return nil
+	}
+	prefix := key[:i+2]
+	var out []*ssa.Function
+	for k, fn := range e.fnByKey {
+		if strings.HasPrefix(k, prefix) {
+			out = append(out, fn)
+		}
+	}
+	return out
+}
+
+func (e *Engine) nameWritersResult() *FuncResult {
+	ctx := newCtx(e, e.anyFunction())
+	ctx.fnKey = "c05-name-writers"
+	res := &FuncResult{Key: "c05-name-writers", Ctx: ctx}
+	class := map[string]string{}
+	for _, l := range loadLock(filepath.Join(verifRoot(), "obligations.lock"), "C05-names") {
+		if f := strings.Fields(l); len(f) >= 2 {
+			class[f[0]] = f[1]
+		}
+	}
+	known := map[string]bool{}
+	for _, l := range loadLock(filepath.Join(verifRoot(), "obligations.lock"), "C05-names-known") {
+		if f := strings.Fields(l); len(f) >= 1 {
+			known[f[0]] = true
+		}
+	}
+	writers := e.nameWriters()
+	var keys []string
+	for k := range writers {
+		keys = append(keys, k)
+	}
+	sort.Strings(keys)
+	ctx.addOblig("refkinds", "name-writers-enumerated", BoolLit(len(keys) >= 2), "internal/ast/compiler")
+	kinds := e.referenceKinds()
+	tracked := map[string]bool{}
+	for _, t := range referenceTrackers {
+		tracked[t] = true
+	}
+	for _, k := range keys {
+		fn := writers[k]
+		c := class[k]
+		ctx.addOblig("refkinds", k+":name-writer-is-classified", BoolLit(c == "renames" || c == "creates" || known[k]), e.pos(fn))
+		if c != "renames" {
+			continue
+		}
+		i := strings.Index(k, ").")
+		if i < 0 {
+			ctx.addOblig("refkinds", k+":renaming-function-is-a-method-of-a-pass", BoolLit(false), e.pos(fn))
+			continue
+		}
+		proc := k[:i+2] + "Process"
+		pf := e.fnByKey[proc]
+		ctx.addOblig("refkinds", proc+":renaming-pass-has-a-Process-method", BoolLit(pf != nil), e.pos(fn))
+		if pf == nil {
+			continue
+		}
+		if !tracked[proc] {
+			// not in the fixed list above: the same obligations, generated here
+			set, found := visitorFieldsSet(pf)
+			ctx.addOblig("refkinds", proc+":builds-a-visitor", BoolLit(found), e.pos(pf))
+			for _, kd := range kinds {
+				ok := set["On"+kd] || set["On"+strings.Replace(kd, "Reference", "Ref", 1)]
+				ctx.addOblig("refkinds", proc+":handles:"+kd, BoolLit(ok), e.pos(pf))
+			}
+		}
+		// the entry point names an object of the schema: a renaming pass writes it somewhere
+		writesEntry := false
+		for _, f := range e.passFunctions(proc) {
+			for _, b := range f.Blocks {
+				for _, in := range b.Instrs {
+					st, ok := in.(*ssa.Store)
+					if !ok {
+						continue
+					}
+					fa, ok := st.Addr.(*ssa.FieldAddr)
+					if !ok {
+						continue
+					}
+					pt, ok := fa.X.Type().Underlying().(*types.Pointer)
+					if !ok {
+						continue
+					}
+					nt, ok := pt.Elem().(*types.Named)
+					if ok && nt.Obj().Name() == "Schema" && nt.Underlying().(*types.Struct).Field(fa.Field).Name() == "EntryPoint" {
+						writesEntry = true
+					}
+				}
+			}
+		}
+		ctx.addOblig("refkinds", proc+":entry-point-is-kept-in-step", BoolLit(writesEntry), e.pos(pf))
+	}
+	res.Obligs = ctx.obligs
+	return res
 }
